@@ -22,14 +22,25 @@ import (
 type region struct {
 	name   string
 	lo, hi uint16 // data pointers are drawn from [lo, hi)
+	list   []uint16 // or from this list (registers that read back what was stored)
 }
 
+// Round 10: I/O registers that are plain storage to a store followed by a load (wave RAM with
+// channel 3 off, scroll/window/palette/compare registers, TMA; SB is not used: this emulator does not keep stored serial data readable, which C03 does not judge), as targets of the opcodes that
+// address one byte: the access cycle of LDH/LD (C)/LD (nn)/(HL) forms is judged there too.
+var ioList = []uint16{0xff30, 0xff31, 0xff32, 0xff33, 0xff34, 0xff35, 0xff36, 0xff37, 0xff38, 0xff39, 0xff3a, 0xff3b, 0xff3c, 0xff3d, 0xff3e, 0xff3f,
+	0xff42, 0xff43, 0xff45, 0xff47, 0xff4a, 0xff4b, 0xff06}
+
+var ioOps = map[uint8]bool{0xe0: true, 0xf0: true, 0xe2: true, 0xf2: true, 0xea: true, 0xfa: true, 0x77: true, 0x7e: true, 0x36: true, 0x34: true, 0x35: true,
+	0x70: true, 0x46: true, 0x02: true, 0x0a: true, 0x12: true, 0x1a: true, 0x22: true, 0x2a: true, 0x32: true, 0x3a: true, 0x86: true, 0xbe: true}
+
 var regions = []region{
-	{"wram", 0xd010, 0xdfe0},
-	{"hram", 0xff84, 0xfff8},
-	{"echo", 0xe010, 0xe7f0},
-	{"vram", 0x8010, 0x9ff0},
-	{"cartram", 0xa010, 0xbff0},
+	{"wram", 0xd010, 0xdfe0, nil},
+	{"hram", 0xff84, 0xfff8, nil},
+	{"echo", 0xe010, 0xe7f0, nil},
+	{"vram", 0x8010, 0x9ff0, nil},
+	{"cartram", 0xa010, 0xbff0, nil},
+	{"io", 0, 0, ioList},
 }
 
 func toX(r ref.Regs) (x struct {
@@ -56,7 +67,12 @@ func (s *sim) peek(a uint16) uint8 { return lockstep.Peek(s.m, a) }
 
 // gen builds a case for opcode bytes op with all data pointers inside region g.
 func gen(r *rig.Rng, op []byte, fl uint8, g region) (ref.Regs, []byte) {
-	pick := func() uint16 { return g.lo + uint16(r.Intn(int(g.hi-g.lo))) }
+	pick := func() uint16 {
+		if g.list != nil {
+			return g.list[r.Intn(len(g.list))]
+		}
+		return g.lo + uint16(r.Intn(int(g.hi-g.lo)))
+	}
 	regs := ref.Regs{A: r.U8(), F: fl, B: r.U8(), C: r.U8(), D: r.U8(), E: r.U8(), H: r.U8(), L: r.U8()}
 	regs.PC = 0xc800 + uint16(r.Intn(0x700))
 	code := append([]byte{}, op...)
@@ -89,9 +105,15 @@ func gen(r *rig.Rng, op []byte, fl uint8, g region) (ref.Regs, []byte) {
 	}
 	if o == 0xe0 || o == 0xf0 {
 		code[1] = 0x84 + uint8(r.Intn(0x70))
+		if g.list != nil {
+			code[1] = uint8(pick())
+		}
 	}
 	if o == 0xe2 || o == 0xf2 {
 		regs.C = 0x84 + uint8(r.Intn(0x70))
+		if g.list != nil {
+			regs.C = uint8(pick())
+		}
 	}
 	return regs, code
 }
@@ -138,6 +160,12 @@ func run(c *rig.Ctx) {
 		op := ops[i]
 		hasR, hasW := false, false
 		for _, g := range regions {
+			if g.list != nil {
+				if op[0] == 0xcb || !ioOps[op[0]] {
+					continue
+				}
+				c.Count("io_register_target_opcodes", 1)
+			}
 			for fl := 0; fl < 16; fl++ {
 				for rep := int64(0); rep < reps; rep++ {
 					regs, code := gen(r, op, uint8(fl)<<4, g)
